@@ -7,15 +7,66 @@ import subprocess
 VERIF = os.path.dirname(os.path.dirname(os.path.abspath(__file__)))
 
 # id -> (technique, level text, level note, design ref)
+R_AX = "std-lib real-number axioms named in the evidence (sig_forall_dec, sig_not_dec, functional_extensionality_dep, classic); "
+TB = ("Trusted: Coq 8.16.1 kernel + vm_compute (primitive floats); hand-written Gallina model tied to /repo only by the "
+      "correspondence check of each run (differential testing on generated traces: a sample, not a proof); Rust harness, Python driver. ")
+SK = "Theorems about the exchange skeleton hold for EVERY decision function and every number type; "
+
 CHECKS = {
+    "C01": ("Coq proof by invariant + induction over operation lists (exchange skeleton, every decision function; server generic in the exchange) + step-wise correspondence",
+            SK + "c01_fills_only_from_resting_book / c01_unquoted_keeps_resting / c01_admitted_rest_after_tick: a tick's fills come only from orders resting before it, priced/dated from that tick's quote for their symbol; server: a tick matches exactly the row of the clock date and the clock advances by one per tick (any interleaving), with increasing dates later rows are dated strictly later. Every run compares exchange and server steps of both services with the model from the implementation's own pre-state.",
+            TB + "The end-to-end 'strictly later' sentence is the composition of three proved facts (stated in Props/C01.v), not one theorem; dataset rows carrying their own date is a premise.", "3/C01"),
+    "C02": ("Coq proof (concrete Uist decision + master tick lemma, every Num F) + step-wise bit-exact correspondence",
+            "c02_fires_iff (against an independently written ShouldFill), c02_trade_fields, c02_tick: fills are exactly one per firing resting order in book order, non-firing/unquoted orders rest unchanged; never panics. Holds for every number type with no arithmetic law assumed, hence for the IEEE instance compared bit-for-bit with UistV1 on every run (all 6 types x price relation x quoted? classes reported in evidence).",
+            TB, "3/C02"),
+    "C03": ("Coq proof: conservation invariant (multiset of ids) by induction over all operation lists, every decision function + step-wise correspondence",
+            SK + "c03_conservation (ids 0..counter-1 = resting + removed as multisets, at every moment), c03_no_id_fills_twice, c03_removed_never_returns, c03_ids_strictly_increasing, c03_cancel_exact / _unknown_noop, c03_tick_master (batch admitted exactly once).",
+            TB + "u64 wrap-around of the id counter after 2^64 admissions is not modelled (ids are unbounded N).", "3/C03"),
+    "C04": ("Coq proof: exact per-operation cash law (every Num F) + ledger by induction over all histories (R) + step-wise correspondence; one open known finding",
+            "c04_step_cash_exact, c04_step_event_exact (IEEE-exact, every Num F), c04_ledger over all histories at R. The code as it is carries the recorded defect q_liq_fail_debit (failed liquidation request <= cash debits it): c04_refuted_q_liq_fail_debit is the witness, listed in known_findings.txt; the check reports it as KNOWN-FINDING and reports any other deviation as a violation.",
+            TB + R_AX + "IEEE rounding in the summed ledger is outside c04_ledger (the step law is exact).", "3/C04"),
+    "C05": ("Coq proof: step laws (every Num F) + reconciliation of holdings/pending with the log by induction over all histories (R) + step-wise correspondence",
+            "c05_holdings_reconcile, c05_pending_reconcile, c05_no_zero, c05_log_step, c05_with_pending.",
+            TB + R_AX + "exact-zero clauses are proved over R; for whole-share quantities below 2^53 float addition is exact, which is observed by the bit-exact correspondence, not proved.", "3/C05"),
+    "C06": ("Coq proof: gate characterised for every broker state and all six order types (every Num F); both client kinds + step-wise correspondence with eager and lazy harness clients",
+            "c06_gate_iff (forward iff the four conditions; never a panic, for a quoted symbol), c06_refusal_inert, c06_forward_once, c06_delivered_any_client. Every run drives send_order through an eager and a lazily polled client and compares what reached the exchange.",
+            TB + "'well-formed' is read as 'for a symbol with a last-seen quote' (the code unwraps the quote; modelled as Panic, excluded by premise). The reqwest Client is represented by an in-process lazy client.", "3/C06"),
+    "C07": ("Coq proof: clock lemma by induction over all interleavings, generic in the exchange; loop termination with fuel + step-wise correspondence with shadow exchange",
+            "c07_tick, c07_clock_after_history, c07_now, c07_fetch_quotes, c07_loop_count, c07_loop_terminates for both services (same generic model).",
+            TB + "Mutex atomicity of handlers is read off the code.", "3/C07"),
+    "C08": ("Coq proof: id freshness invariant and noninterference by simulation over all interleavings, generic in the exchange + step-wise correspondence",
+            "c08_fresh_ids, c08_create_spec, c08_step_frame, c08_step_local, c08_noninterference, c08_unknown_backtest/_dataset.",
+            TB + "Mutex atomicity of handlers is read off the code; HTTP 400 mapping is C20's handler layer.", "3/C08"),
+    "C09": ("Coq proof: Failed-iff at R (loop invariant showing the second failure exit unreachable), absorbing for every Num F + step-wise correspondence at constructed boundaries",
+            "c09_failed_iff, c09_absorbing, c09_failed_refuses, c09_failed_still_books, c09_only_reconciliation_fails.",
+            TB + R_AX + "at the boundary -cash + 1000 = liquidation value the float sum order may decide differently from the reals.", "3/C09"),
+    "C10": ("Coq proof at R: loop invariant over the holdings in any iteration order + step-wise correspondence",
+            "c10_sufficient, c10_rebalance_sufficient (success => market sells within holdings worth >= request; failure => nothing queued), for whole-share long portfolios and every holdings order.",
+            TB + R_AX + "ceil/division rounding in floats is outside the theorem.", "3/C10"),
+    "C11": ("Coq proof at R (sums, permutation invariance, cost-basis fold vs an independent 'since last flat' spec) + bit-exact correspondence of all getters",
+            "c11_total, c11_liq_le_total, c11_liq_eq_total_without_costs (every Num F), c11_cost_basis, c11_profit; last-seen-bid: the quote map is updated only from the row fetched at the clock date (with C07).",
+            TB + R_AX, "3/C11"),
+    "C12": ("Coq proof at R: closed form of the loop vs an independently written per-symbol relation; permutation invariance + bit-exact correspondence",
+            "c12_per_symbol (orders = exactly the wanted ones), c12_one_order_per_quoted_target, c12_sells_first_shape, c12_order_independent for every iteration order of weights and holdings.",
+            TB + R_AX, "3/C12"),
     "C13": ("Coq proof over R by induction on the cost list + bit-exact model/code correspondence",
             "Theorems c13_* (Props/C13.v): no-overspend for every cost list of any length/order with each percentage in [0,1), fee additivity, price direction, budget monotonicity; proved of the Gallina model at F := R. The same definitions at the IEEE instance are compared bit-for-bit with BrokerCost on generated inputs every run.",
-            "Trusted: Coq kernel + vm_compute; std-lib real-number axioms (sig_forall_dec, sig_not_dec, functional_extensionality_dep, classic); hand-written model tied to code by differential testing only; IEEE rounding in the inequality is outside the theorem.",
-            "3/C13"),
+            TB + R_AX + "IEEE rounding in the inequality is outside the theorem.", "3/C13"),
+    "C14": ("Coq proof at R (exp/ln compounding, population variance, scale invariance) + bit-exact correspondence with observed libm table",
+            "c14_period, c14_total, c14_total_no_flows, c14_best/_worst, c14_vol, c14_cagr, c14_sharpe, c14_scale, c14_vectors.",
+            TB + R_AX + "ln/exp/powf are the mathematical functions in the theorems; the platform libm's values are observed per run (table), not modelled.", "3/C14"),
+    "C15": ("Coq proof at R: scan loop invariant (prefix maximum, minimum since, best pair so far) + bit-exact correspondence",
+            "c15_scan, c15_bounds, c15_monotone, c15_calculate (value is the minimum over i <= j; reported dates realise it, start <= end).",
+            TB + R_AX, "3/C15"),
+    "C17": ("Coq proof for every admissible sort result and every batch size (skeleton, every decision function) + the sort specification checked on every admission of every trace",
+            SK + "c17_admission, c17_sells_get_smaller_ids, c17_ids_grow_with_admission, c17_fills_in_book_order, c17_book_sorted_always hold for every permutation of the buffer that puts sells first. slice::sort_by with this non-total comparator is specified (sells_first + permutation), not modelled: the boolean check is evaluated inside Coq on every observed admission (batch sizes 0..65 in all arrangement classes quick; up to 4097 thorough).",
+            TB + "PARTIAL: the behaviour of std's sort_by on a comparator that is not a total order is validated by test per run, not proved.", "3/C17"),
+    "C18": ("Coq proof (concrete Jura decision + lifecycle through the master tick lemma, every Num F) + step-wise bit-exact correspondence",
+            "c18_ioc_first_attempt / _after_attempt / _lifecycle_*, c18_gtc, c18_trigger_decision (against independent ShouldFire), c18_trigger_lifecycle (child: fresh id, announced, not fillable on the same tick), c18_fill_fields.",
+            TB + "limit_px / sz strings are modelled by their parse::<f64>() value (observed); Alo and unparsable strings are modelled as panics and excluded by premise.", "3/C18"),
     "C19": ("Coq proof: unbounded date-only lemma + complete vm_compute sweep of 84 006 days lifted by forallb_forall; exhaustive model/code comparison",
             "c19_date_only for every timestamp; c19_spec (bound 1970–2199 stated in the theorem) by a kernel-evaluated complete sweep against an independently written calendar spec; c19_calendar ties Hinnant's formula to the day-by-day Gregorian calendar. Every run compares the model with the time crate and schedule/mod.rs on every day of the range at several times of day.",
-            "Trusted: Coq kernel + vm_compute; the time crate's calendar is compared exhaustively on the range, not modelled beyond it.",
-            "3/C19"),
+            "Trusted: Coq kernel + vm_compute; the time crate's calendar is compared exhaustively on the range, not modelled beyond it.", "3/C19"),
 }
 
 NOT_YET = {}
